@@ -1,3 +1,37 @@
-(* C01 — builder-constructed HUGRs satisfy the specification's validity rules (stage A: predicate only). *)
+(* C01 — builder-constructed HUGRs satisfy the specification's validity rules.
+   Property-level theorems only; each is closed by an exact reference to a lemma of proofs/BuilderP.v.
+
+   The goal, at full strength (NOT proved; every conjunct of `valid` not listed in the partial theorem
+   below is evaluated by the monitor on the implementation's own document for every generated program):
+
+     Theorem C01_builder_valid : forall tys p g,
+       WFProg p ->                      (* inputs wired once, linear values used once, Ext/Dom wires copyable,
+                                           order edges forward: the premises of harness/progs.py *)
+       run tys p = Ok g ->
+       valid {| v_tys := tys; v_main := g; v_subs := [] |} = true.
+
+   `run` is the builder model of model/Builder.v (programs over Dfg / add_op / add / extend / load /
+   add_nested / add_state_order / set_outputs with non-local wires, any nesting depth); it is tied to
+   hugr-py by the correspondence `run prog == the document the real builders serialise` on generated
+   programs (run/C01Run.v). *)
 From Coq Require Import NArith List Bool.
-From HV Require Import model.Validity.
+Import ListNotations.
+From HV Require Import lib.Harness model.Validity model.Builder proofs.BuilderP.
+
+(* Proved for ALL programs of the modelled language, with no well-formedness premise: whenever the
+   builder calls do not raise, the serialised document satisfies
+     r_index        : node 0 is the root, every other parent is an earlier node, edge endpoints exist;
+     r_child_tags   : only permitted parent/child operation pairs;
+     r_first_second : every dataflow container has an Input first and an Output second and no other
+                      Input/Output child (CFG/Conditional positions hold vacuously: not in the model). *)
+Theorem C01_builder_valid_partial : forall tys p g,
+  run tys p = Ok g -> r_index g = true /\ r_child_tags g = true /\ r_first_second g = true.
+Proof. exact run_structural. Qed.
+Print Assumptions C01_builder_valid_partial.
+
+(* the theorem is not vacuous: a program with a nested region and a non-local wire runs in the model and
+   the whole `valid` accepts its document *)
+Theorem C01_model_runs : exists g, run ex_tys ex_prog = Ok g /\
+  valid {| v_tys := ex_tys; v_main := g; v_subs := [] |} = true /\ length (g_edges g) = 4%nat.
+Proof. exact ex_runs. Qed.
+Print Assumptions C01_model_runs.
